@@ -202,10 +202,11 @@ class JSONSerialization(Serialization):
         """Given an applicable numeric schema, augment with bounds information."""
         if bounds is not None:
             (low, high) = bounds
-            if low is not None:
+            # (JSON has no infinity: an infinite bound is no bound)
+            if low is not None and low != float('-inf'):
                 key = 'minimum' if inclusive_bounds[0] else 'exclusiveMinimum'
                 schema[key] = low
-            if high is not None:
+            if high is not None and high != float('inf'):
                 key = 'maximum' if inclusive_bounds[1] else 'exclusiveMaximum'
                 schema[key] = high
         return schema
